@@ -57,10 +57,11 @@ def check(ctx):
         'floating_species': ctx.entry(fd.qualname, args={'floating_species': AV(ty='list', elem=AV(ty='str'), truthy=True), 'fixed_species': AV(ty='None', const=('c', None))}),
     }
     # ---- R1
+    in_df = under(fd.qualname, ff.qualname)
     for which, it in runs.items():
         seen = set()
         for e in it.events:
-            if e['tag'] != 'membership' or e['where'] is None or e['where'].qualname not in (fd.qualname, ff.qualname):
+            if e['tag'] != 'membership' or e['where'] is None or not in_df(e):
                 continue
             item, cont = e['item'], e['container']
             if cont is not None and cont.ty == 'None':
